@@ -306,6 +306,70 @@ theorem session_drop_inside_segment (mc : FilterOracle) (t : Table) (sel : List 
 example : coverageOf { start := 1000, end_ := 2000, inclStart := true, inclEnd := false } = (1000, 1999, true) := by
   decide
 
+/-! ## 3c. maturity: the bounds of a trace staged as several physical blocks -/
+
+/-- **The stager's per-trace bounds are exact.** Staging the physical blocks of one trace, in any
+    order of their timestamps (all with known, well-formed bounds), yields a group whose `minTS` is
+    the minimum of the blocks' minima and whose `maxTS` is the maximum of their maxima; hence the
+    maturity test (`group.maxTS ≤ frontier`) holds iff the newest span of the whole trace is not
+    younger than the frontier - an older later block can never hide a newer earlier one. -/
+theorem stage_bounds_exact (tid : Nat) (b : SBlock) (rest : List SBlock)
+    (hv : ∀ x ∈ b :: rest, x.known = true ∧ x.min ≤ x.max) (frontier : Int) :
+    let g := (b :: rest).foldl SGroup.add { tid := tid }
+    g.minTS = minOfInts ((b :: rest).map (·.min)) ∧ g.maxTS = maxOfInts ((b :: rest).map (·.max)) ∧
+    g.valid = true ∧ (g.eligible frontier = true ↔ ∀ x ∈ b :: rest, x.max ≤ frontier) := by
+  intro g
+  obtain ⟨hk, hle⟩ := hv b (List.mem_cons_self ..)
+  have hfirst : ({ tid := tid } : SGroup).add b = { tid := tid, minTS := b.min, maxTS := b.max, count := 1, valid := true } := by
+    unfold SGroup.add
+    have h1 : (!b.known || decide (b.min > b.max)) = false := by simp [hk]; omega
+    simp [h1]
+  obtain ⟨a1, a2, a3⟩ := sgroup_fold_spec rest (({ tid := tid } : SGroup).add b) (by rw [hfirst]; simp)
+    (fun x hx => hv x (List.mem_cons_of_mem _ hx))
+  have hg : g = rest.foldl SGroup.add (({ tid := tid } : SGroup).add b) := rfl
+  rw [hfirst] at a1 a2 a3
+  refine ⟨by rw [hg, hfirst, a1]; rfl, by rw [hg, hfirst, a2]; rfl, by rw [hg, hfirst, a3], ?_⟩
+  have hmax : g.maxTS = maxOfInts ((b :: rest).map (·.max)) := by rw [hg, hfirst, a2]; rfl
+  unfold SGroup.eligible
+  rw [decide_eq_true_iff, hmax]
+  have hne : (b :: rest).map (·.max) ≠ [] := by simp
+  obtain ⟨hmem, hub⟩ := maxOfInts_spec hne
+  constructor
+  · intro h x hx
+    exact Int.le_trans (hub x.max (List.mem_map.mpr ⟨x, hx, rfl⟩)) h
+  · intro h
+    obtain ⟨x, hx, hxe⟩ := List.mem_map.mp hmem
+    rw [← hxe]; exact h x hx
+
+/-- the stager keeps one group per run of equal trace ids: staging the blocks of a single trace
+    from an empty stager is that fold. -/
+theorem stage_single_trace (tid : Nat) (bs : List SBlock) (b : SBlock) (htid : ∀ x ∈ b :: bs, x.tid = tid) :
+    ((b :: bs).foldl StagerState.stage {}).groups = [(b :: bs).foldl SGroup.add { tid := tid }] := by
+  have hb : b.tid = tid := htid b (List.mem_cons_self ..)
+  have key : ∀ (l : List SBlock) (s : StagerState) (g : SGroup), s.groups = [g] → g.tid = tid → (∀ x ∈ l, x.tid = tid) →
+      (l.foldl StagerState.stage s).groups = [l.foldl SGroup.add g] := by
+    intro l
+    induction l with
+    | nil => intro s g hs _ _; exact hs
+    | cons x xs ih =>
+      intro s g hs hg hx
+      simp only [List.foldl_cons]
+      have hxt : x.tid = g.tid := by rw [hg]; exact hx x (List.mem_cons_self ..)
+      apply ih _ (g.add x)
+      · unfold StagerState.stage; rw [hs]; simp [hxt]
+      · rw [SGroup.add_tid]; exact hg
+      · exact fun y hy => hx y (List.mem_cons_of_mem _ hy)
+  simp only [List.foldl_cons]
+  apply key bs _ (({ tid := tid } : SGroup).add b)
+  · unfold StagerState.stage; simp [hb]
+  · rw [SGroup.add_tid]
+  · exact fun y hy => htid y (List.mem_cons_of_mem _ hy)
+
+
+/-- newest span in the first staged block, an older block after it: the trace stays immature. -/
+example : (([⟨1, 1990, 1990, true⟩, ⟨1, 1100, 1100, true⟩] : List SBlock).foldl SGroup.add { tid := 1 }).maxTS = 1990 := by
+  decide
+
 /-! ## 4. sampler failures fail open -/
 
 /-- **Fail-open.** If every link of the chain failed (returned an error, panicked, blocked,
